@@ -282,9 +282,9 @@ func (u *Unit) impliedConst(st *State, t *Term) *Term {
 		return t
 	}
 	h := st.hyps()
-	for _, c := range []int64{0, 1, 2, 3, 4, 8, 12, 16, 20, 24, 28} {
-		if u.inc.Valid(h, Eq(t, IntK(c))) {
-			return IntK(c)
+	if v, ok := u.inc.ModelInt(h, t); ok && v >= 0 && v <= 64 {
+		if u.inc.Valid(h, Eq(t, IntK(v))) {
+			return IntK(v)
 		}
 	}
 	return t
@@ -445,6 +445,21 @@ func (u *Unit) appendWrite(st *State, dst *Region, at *Term, et types.Type, aR *
 func (u *Unit) intrinsic(st *State, fr *Frame, in *ssa.Call, fn *ssa.Function, args []Value) ([]Outcome, bool, bool) {
 	one := func(v Value) ([]Outcome, bool, bool) { return []Outcome{{st, v}}, true, true }
 	name := fn.String()
+	if fn.Name() == "byteAt" && pkgPathOf(fn) == rtcpPath {
+		// ghost reader: total (arbitrary outside the slice), no branching
+		s := args[0].(SliceV)
+		it := toInt(args[1].(IntV))
+		if s.R == nil {
+			return one(IntV{Fresh("oob", BVSort(8)), false})
+		}
+		u.specMode++
+		v, ok := u.readRegion(st, s.R, IntAdd(s.Off, it), "", types.Typ[types.Uint8])
+		u.specMode--
+		if !ok {
+			return nil, false, true
+		}
+		return one(v)
+	}
 	switch name {
 	case "math.Floor":
 		a := args[0].(FloatV)
